@@ -1029,6 +1029,8 @@ class Interp:
                 return l - r
             if isinstance(op, ast.Mult):
                 return l * r
+            if isinstance(op, (ast.FloorDiv, ast.Mod)) and r == 0:
+                raise PyRaise("ZeroDivisionError", node, "integer division or modulo by zero")
             if isinstance(op, ast.FloorDiv):
                 return l // r
             if isinstance(op, ast.Mod):
